@@ -46,9 +46,39 @@ def canon(structure):
     return out
 
 
-def real_read(path, reqs):
+def read_and_edit(path):
+    """a caller has read this file before - through the parse functions and through read_3d_structure - and has edited what
+    it got back in place (atom list trimmed, dictionaries emptied, residues dropped); what later reads of the same file
+    return must not be affected"""
+    from rnapolis import parser as P
+    with contextlib.redirect_stdout(io.StringIO()), contextlib.redirect_stderr(io.StringIO()):
+        for fn in (P.parse_cif, P.parse_pdb):
+            try:
+                with open(path) as f:
+                    if (fn is P.parse_cif) != P.is_cif(f):
+                        continue
+                    f.seek(0)
+                    parts = fn(f)
+                for x in parts if isinstance(parts, tuple) else [parts]:
+                    if isinstance(x, list):
+                        del x[len(x) // 2:]
+                    elif isinstance(x, dict):
+                        x.clear()
+            except Exception:  # noqa: BLE001
+                pass
+        try:
+            with open(path) as f:
+                s = P.read_3d_structure(f, None)
+            del s.residues[1:]
+        except Exception:  # noqa: BLE001
+            pass
+
+
+def real_read(path, reqs, history=None):
     from rnapolis.parser import read_3d_structure
     out = {}
+    if history == "read-and-edited-before":
+        read_and_edit(path)
     for q in reqs:
         try:
             with open(path) as f, contextlib.redirect_stdout(io.StringIO()), contextlib.redirect_stderr(io.StringIO()):
@@ -137,7 +167,7 @@ def work(job):
             job = dict(job, reqs=[None, models[0] + 1])
         reqs = job.get("reqs") or requests_for(models)
         res["reqs"] = reqs
-        res["real"] = real_read(path, reqs)
+        res["real"] = real_read(path, reqs, job.get("history"))
     finally:
         if kind != "corpus":
             os.unlink(path)
@@ -570,17 +600,21 @@ def run(ctx):
         res.count("models:%d" % meta["nmodels"])
         if meta["pdb_ok"]:
             text = g4v1.to_pdb(recs, ter=rng.random() < 0.7, header=rng.random() < 0.5)
-            jobs.append(dict(kind="table", fmt="pdb", text=text, decoy=rng.random() < 0.1))
+            hist = "read-and-edited-before" if rng.random() < 0.2 else None
+            jobs.append(dict(kind="table", fmt="pdb", text=text, decoy=rng.random() < 0.1, history=hist))
             items.append(dict(tag=tag, fmt="pdb", toks=tokens_of_table(recs, "pdb"), records=recs, meta=meta, text=text,
-                              inp=dict(family=tag, format="pdb", records=recs)))
+                              inp=dict(family=tag, format="pdb", records=recs, history=hist)))
         attrs, vtag = cif_variant(rng, recs)
         if meta.get("cif_attrs"):
             attrs, vtag = meta["cif_attrs"], "no-auth-comp-item"
         res.count("cif-layout:" + vtag)
         text, attrs, rows = g4v1.to_cif(recs, attrs)
-        jobs.append(dict(kind="table", fmt="cif", text=text, decoy=rng.random() < 0.1))
+        hist = "read-and-edited-before" if rng.random() < 0.2 else None
+        jobs.append(dict(kind="table", fmt="cif", text=text, decoy=rng.random() < 0.1, history=hist))
         items.append(dict(tag=tag, fmt="cif", toks=tokens_of_table(recs, "cif", attrs), records=recs, meta=meta, text=text, rows=rows,
-                          attrs=attrs, inp=dict(family=tag, format="cif", records=recs, attrs=attrs)))
+                          attrs=attrs, inp=dict(family=tag, format="cif", records=recs, attrs=attrs, history=hist)))
+        if hist:
+            res.count("history:read-and-edited-before")
     t0 = time.time()
     outs = parallel_map(work, jobs)
     res.notes.append("timing: real reader on %d generated files %.1fs" % (len(jobs), time.time() - t0))
@@ -753,11 +787,11 @@ def eval_one(ctx, inp):
         meta = dict(models=models, nmodels=len(models))
         if fmt == "pdb":
             text = g4v1.to_pdb(recs)
-            o = work(dict(kind="table", fmt="pdb", text=text, reqs=[inp.get("req")]))
+            o = work(dict(kind="table", fmt="pdb", text=text, reqs=[inp.get("req")], history=inp.get("history")))
             mreq = (lambda q: ["pdb1.read", "code", qs(q), hexs(text)])
         else:
             text, attrs, rows = g4v1.to_cif(recs, inp.get("attrs"))
-            o = work(dict(kind="table", fmt="cif", text=text, reqs=[inp.get("req")]))
+            o = work(dict(kind="table", fmt="cif", text=text, reqs=[inp.get("req")], history=inp.get("history")))
             a, r = ",".join(o["attrs"]), ";".join(",".join(hexs(v) for v in row) for row in o["rows"]) or "-"
             mreq = (lambda q: ["pdb1.cif", "code", qs(q), a or "-", r])
         lines.append("file:\n" + text)
